@@ -97,3 +97,28 @@ theorem mem_keys_get (m : AL α) (h : Hash) (hm : h ∈ keys m) : ∃ v, get m h
         exact ⟨v, by simp [get, hk, hv]⟩
 
 end Kvass.AL
+
+namespace Kvass.AL
+variable {α : Type}
+
+theorem mem_keys_iff (m : AL α) (h : Hash) : h ∈ keys m ↔ ∃ v, get m h = some v :=
+  ⟨mem_keys_get m h, fun ⟨v, hv⟩ => get_some_mem_keys m h v hv⟩
+
+theorem mem_keys_set (m : AL α) (h k : Hash) (v : α) : k ∈ keys (set m h v) ↔ k = h ∨ k ∈ keys m := by
+  rw [mem_keys_iff, mem_keys_iff, get_set]
+  by_cases hk : h = k
+  · subst hk; simp
+  · simp [hk, Ne.symm hk]
+
+theorem get_map {β : Type} (m : AL α) (f : α → β) (h : Hash) :
+    get (m.map fun p => (p.1, f p.2)) h = (get m h).map f := by
+  induction m with
+  | nil => rfl
+  | cons p m ih =>
+    obtain ⟨k, x⟩ := p
+    by_cases hk : k = h <;> simp [get, hk, ih]
+
+theorem keys_map {β : Type} (m : AL α) (f : α → β) : keys (m.map fun p => (p.1, f p.2)) = keys m := by
+  simp [keys, List.map_map, Function.comp_def]
+
+end Kvass.AL
